@@ -208,8 +208,42 @@ def check_one(zone, t, col, case, with_image):
             raise AssertionError('parse/record not identity')
         return dec_udf(b)
 
+    def enc7(inst, off15):
+        tm = time.gmtime(inst + off15 * 900)
+        return struct.pack('=BBBBBBb', tm.tm_year - 1900, tm.tm_mon, tm.tm_mday, tm.tm_hour, tm.tm_min, tm.tm_sec, off15)
+
+    def enc17(inst, off15, hs):
+        tm = time.gmtime(inst + off15 * 900)
+        return ('%04d%02d%02d%02d%02d%02d%02d' % (tm.tm_year, tm.tm_mon, tm.tm_mday, tm.tm_hour, tm.tm_min, tm.tm_sec, hs)).encode() + struct.pack('=b', off15)
+
+    def tf_foreign(longform):
+        # a TF entry as another tool recorded it: any subset of the seven stamps, every stamp a *different* instant and
+        # its own offset; parsing and re-recording has to give the same bytes, so every stamp stays in its slot
+        def run():
+            h = (want * 2654435761 + (17 if longform else 7)) & 0xffffffff
+            flags = (h >> 5) & 0x7f or 0x06
+            slots = [i for i in range(7) if flags & (1 << i)]
+            parts = []
+            insts = []
+            for k, i in enumerate(slots):
+                inst = want + (k * 86461 + i * 3607) % 40000000
+                off15 = ((h >> (3 * k)) % 105) - 48
+                insts.append(inst)
+                parts.append(enc17(inst, off15, (h >> k) % 100) if longform else enc7(inst, off15))
+            b = b'TF' + bytes([5 + len(b''.join(parts)), 1, flags | (0x80 if longform else 0)]) + b''.join(parts)
+            p = rockridge.RRTFRecord(); p.parse(b)
+            out = p.record()
+            if out != b:
+                sz = 17 if longform else 7
+                moved = [k for k in range(len(slots)) if out[5 + k * sz:5 + (k + 1) * sz] != parts[k]]
+                raise AssertionError('a parsed TF entry with flags %#x is re-recorded differently (stamps %s of %d changed)' % (flags, moved, len(slots)))
+            return want, 0
+        return run
+
     verdict('dirrecord-date', dr7)
     verdict('voldesc-date', vd17)
+    verdict('rr-tf-foreign-7', tf_foreign(False))
+    verdict('rr-tf-foreign-17', tf_foreign(True))
     verdict('rr-tf-7', tf(0x0e, False))
     verdict('rr-tf-17', tf(0x0e, True))
     verdict('udf-timestamp', udfts)
